@@ -75,7 +75,7 @@ Lemma del_loop_spec close m : forall pb cl,
     (NoDup cl -> NoDup cl').
 Proof.
   induction m as [|[c ch] r IH]; intros pb cl Hnd Hdis.
-  - exists cl. cbn. repeat split; try tauto. intros [[_ []]|H]; exact H.
+  - exists cl. cbn. split; [reflexivity|]. split; [|tauto]. intros x. tauto.
   - cbn [map snd] in Hnd. inversion Hnd as [|? ? Hch Hr]; subst.
     cbn [del_loop]. destruct close.
     + unfold close_chan. assert (memN ch cl = false) as Hm.
@@ -138,10 +138,13 @@ Qed.
 
 Lemma inv_init : Inv cm_init.
 Proof.
-  constructor; cbn; try (intros; discriminate); try constructor.
+  constructor; cbn.
+  - intros p m H. discriminate.
   - intros c p. split; [discriminate|]. intros [ch [m [H _]]]. discriminate.
+  - intros p H. discriminate.
   - intros p c p' c' ch [m [H _]]. discriminate.
   - intros p c ch [m [H _]]. discriminate.
+  - constructor.
 Qed.
 
 Lemma bound_init : Bound cm_init [] [].
@@ -272,7 +275,7 @@ Proof.
       assert (entry s p1 c1 chx) as O by (exists m1; split; assumption). split; [exact O|].
       intros ->. apply Hn. eapply entry_parent_unique; [exact I|exact O|exact Hthe]. }
   assert (Hold : forall p1 c1 chx, entry s p1 c1 chx -> c1 <> c -> entry s' p1 c1 chx).
-  { intros p1 c1 chx [m1 [H1 H2]] Hnc. cbn [children s']. destruct (N.eq_dec p1 p) as [->|Hn].
+  { intros p1 c1 chx [m1 [H1 H2]] Hnc. unfold entry. cbn [children s']. destruct (N.eq_dec p1 p) as [->|Hn].
     - exists (mrm c m). rewrite lookup_insert_eq by exact E. split; [reflexivity|].
       rewrite lookup_remove_neq by (exact E || exact Hnc). rewrite Lp in H1. inversion H1; subst. exact H2.
     - exists m1. rewrite lookup_insert_neq by (exact E || exact Hn). split; assumption. }
@@ -308,8 +311,8 @@ Lemma del_child_inv s uc uch c close :
   is_panic (snd (do_del_child s c close)) = false /\ Inv (fst (do_del_child s c close)) /\ Bound (fst (do_del_child s c close)) uc uch.
 Proof.
   intros I B. unfold do_del_child.
-  destruct (c =? 0)%N; [cbn; repeat split; assumption|].
-  destruct (mlk c (pbc s)) as [p|] eqn:L; [|cbn; repeat split; assumption].
+  destruct (c =? 0)%N; [cbn [fst snd is_panic]; split; [reflexivity|split; assumption]|].
+  destruct (mlk c (pbc s)) as [p|] eqn:L; [|cbn [fst snd is_panic]; split; [reflexivity|split; assumption]].
   apply (inv_cons s I) in L. destruct L as [ch [m [Lp Lc]]].
   rewrite Lp, Lc.
   destruct close.
@@ -328,8 +331,8 @@ Lemma del_parent_inv s uc uch p close :
   is_panic (snd (do_del_parent s p close)) = false /\ Inv (fst (do_del_parent s p close)) /\ Bound (fst (do_del_parent s p close)) uc uch.
 Proof.
   intros I B. unfold do_del_parent.
-  destruct (p =? 0)%N; [cbn; repeat split; assumption|].
-  destruct (plk p (children s)) as [[m|]|] eqn:Lp; [| exfalso; eapply (inv_nonil s I); exact Lp | cbn; repeat split; assumption].
+  destruct (p =? 0)%N; [cbn [fst snd is_panic]; split; [reflexivity|split; assumption]|].
+  destruct (plk p (children s)) as [[m|]|] eqn:Lp; [| exfalso; eapply (inv_nonil s I); exact Lp | cbn [fst snd is_panic]; split; [reflexivity|split; assumption]].
   assert (Hnd : NoDup (keys m)) by (eapply (inv_nd s I); exact Lp).
   assert (Hent : forall c ch, mlk c m = Some ch -> entry s p c ch) by (intros c ch L; exists m; split; assumption).
   assert (Hvals : NoDup (map snd m)).
@@ -407,8 +410,8 @@ Proof.
   intros I B F. destruct o as [p c ch|c|c|p|p]; cbn [cstep used_after fst snd].
   - cbn [op_fresh] in F. destruct (effective p c ch) eqn:He.
     + destruct (F eq_refl) as [Hc Hch]. destruct (add_inv s uc uch p c ch I B He Hc Hch) as [H1 [H2 H3]].
-      rewrite H1. cbn [fst snd]. repeat split; assumption.
-    + rewrite add_rejected by exact He. cbn. repeat split; assumption.
+      rewrite H1. cbn [fst snd is_panic]. split; [reflexivity|split; assumption].
+    + rewrite add_rejected by exact He. cbn [fst snd is_panic]. split; [reflexivity|split; assumption].
   - apply del_child_inv; assumption.
   - apply del_child_inv; assumption.
   - apply del_parent_inv; assumption.
@@ -422,7 +425,7 @@ Lemma crun_inv ops : forall s uc uch,
   length (snd (crun s ops)) = length ops /\
   Inv (fst (crun s ops)).
 Proof.
-  induction ops as [|o r IH]; intros s uc uch I B F; [cbn; repeat split; [constructor|exact I]|].
+  induction ops as [|o r IH]; intros s uc uch I B F; [cbn; split; [constructor|split; [reflexivity|exact I]]|].
   assert (op_fresh uc uch o /\ fresh_from (fst (used_after uc uch o)) (snd (used_after uc uch o)) r) as [Fo Fr].
   { destruct o as [p c ch|c|c|p|p]; cbn [fresh_from op_fresh used_after fst snd] in *; try (split; [exact Logic.I|exact F]).
     destruct (effective p c ch); cbn [fst snd]; [|split; [discriminate|exact F]].
@@ -431,7 +434,7 @@ Proof.
   cbn [crun]. destruct (cstep s o) as [s1 x] eqn:Es. cbn [fst snd] in *. rewrite Hp.
   destruct (IH s1 _ _ I1 B1 Fr) as [H1 [H2 H3]].
   destruct (crun s1 r) as [s2 xs]. cbn [fst snd] in *.
-  repeat split; [constructor; assumption|lia|exact H3].
+  split; [constructor; assumption|split; [cbn [length]; lia|exact H3]].
 Qed.
 
 Lemma chanmap_total ops :
@@ -443,9 +446,6 @@ Lemma chanmap_total ops :
   (forall p, plk p (children (fst (crun cm_init ops))) <> Some None).
 Proof.
   intros F. destruct (crun_inv ops cm_init [] [] inv_init bound_init F) as [H1 [H2 H3]].
-  repeat split; try assumption.
-  - exact (inv_ndc _ H3).
-  - apply inv_consistent; exact H3.
-  - apply inv_consistent; exact H3.
-  - exact (inv_nonil _ H3).
+  split; [exact H1|]. split; [exact H2|]. split; [exact (inv_ndc _ H3)|].
+  split; [apply inv_consistent; exact H3|exact (inv_nonil _ H3)].
 Qed.
